@@ -236,3 +236,49 @@ Qed.
 (* the pass keeps the statement skeleton: same number of top-level statements *)
 Lemma gp_top_length open fe t : forall l idx, length (gp_top open fe t idx l) = length l.
 Proof. induction l as [|s r IH]; intro idx; cbn [gp_top length]; [reflexivity | rewrite IH; reflexivity]. Qed.
+
+(* ------------------------------------------------------------------ the table meets the evaluator *)
+(* Executing the `let` that defines a table entry - at top level, on the definitional evaluator, from any
+   state whose globals agree with the entries of EARLIER statements - binds the name to exactly the
+   value the stored expression has: the new entry agrees too.  This is the inductive step of the
+   (unproved) whole-program argument that the environment agrees with the table at every use the
+   ordering rule lets through. *)
+From Aelys Require Import Proofs.EvalMono.
+
+Lemma is_const_pure t b e : is_const t b e = true -> pure e = true.
+Proof.
+  induction e; cbn [is_const pure]; intro H; try discriminate; try reflexivity.
+  - apply andb_true_iff in H as [H1 H2]. rewrite IHe1, IHe2; auto.
+  - auto.
+  - apply andb_true_iff in H as [H1 H2]. rewrite IHe1, IHe2; auto.
+  - apply andb_true_iff in H as [H1 H2]. rewrite IHe1, IHe2; auto.
+  - apply andb_true_iff in H as [H12 H3]. apply andb_true_iff in H12 as [H1 H2]. rewrite IHe1, IHe2, IHe3; auto.
+Qed.
+
+Lemma lookup_set_assoc_same {A} x (v : A) l : lookup x (set_assoc x v l) = Some v.
+Proof.
+  induction l as [|[y w] r IH]; cbn [set_assoc lookup].
+  - rewrite String.eqb_refl. reflexivity.
+  - destruct (String.eqb x y) eqn:E; cbn [lookup]; rewrite E; [reflexivity | exact IH].
+Qed.
+
+Theorem defining_let_establishes_entry (t : tbl) (idx : nat) (x : string) (e : expr)
+        (fuel depth : nat) (st st' : state) (r : res (ctl * list (string * nat))) :
+  tbl_closed t -> is_const t idx e = true -> agrees t idx (rho_of [] st) -> (esize e <= fuel)%nat ->
+  exec_stmt (S fuel) depth true [] st (SLet x false e) = (st', r) ->
+  match r with
+  | ROk _ => exists v, peval (rho_of [] st') (resolve t e) = ROk v /\ rho_of [] st' x = Some v
+  | RErr k => st' = st /\ peval (rho_of [] st) e = RErr k
+  | RFuel => True
+  end.
+Proof.
+  intros Hc Hk Ha Hf H. rewrite exec_stmt_S in H.
+  rewrite (eval_expr_pure e fuel depth [] st (is_const_pure _ _ _ Hk) Hf) in H.
+  destruct (peval (rho_of [] st) e) as [v|k|] eqn:P.
+  - inversion H; subst. exists v. split.
+    + rewrite (closed_peval_indep _ (resolve_closed t idx e Hc Hk) _ (rho_of [] st)).
+      rewrite (resolve_sound t idx _ e Ha Hk). exact P.
+    + unfold rho_of, lookup_var, set_global. cbn [lookup globals]. rewrite lookup_set_assoc_same. reflexivity.
+  - inversion H; subst. split; reflexivity.
+  - inversion H; subst. exact I.
+Qed.
